@@ -42,8 +42,12 @@ class SimFS:
     calls: list of (index, opname, path-relative) actually made (the run's I/O trace).
     """
 
-    def __init__(self, root, plan=None):
+    def __init__(self, root, plan=None, locale_encoding=None):
         self.root = os.path.realpath(root)
+        # the encoding a text-mode open() WITHOUT an explicit encoding gets: the locale's, i.e. part
+        # of the environment (None: whatever this process has)
+        self.locale_encoding = locale_encoding
+        self.locale_used = False
         self.plan = {int(k): v for k, v in (plan or {}).items()}
         self.calls = []
         self.fired = []
@@ -110,6 +114,15 @@ class SimFS:
                 # the file was swapped between resolve() and open()
                 with self._orig['io.open'](file, 'w', encoding='utf-8') as w:
                     w.write(f['text'])
+            if self.locale_encoding:
+                mode = a[0] if a else kw.get('mode', 'r')
+                enc = a[2] if len(a) > 2 else kw.get('encoding')
+                if isinstance(mode, str) and 'b' not in mode and enc in (None, 'locale'):
+                    if len(a) > 2:
+                        a = a[:2] + (self.locale_encoding,) + a[3:]
+                    else:
+                        kw = dict(kw, encoding=self.locale_encoding)
+                    self.locale_used = True
             real = self._orig['io.open'](file, *a, **kw)
             try:
                 st = os.fstat(real.fileno())
@@ -264,6 +277,7 @@ class FaultyRaw(io.RawIOBase):
         self.fired = 0
         self.write_calls = 0
         self._armed = fault is not None
+        self.tty = False  # set by the scenario: a terminal (line-buffered text layer, isatty() true)
 
     def writable(self):
         return True
@@ -272,7 +286,7 @@ class FaultyRaw(io.RawIOBase):
         return self._fd
 
     def isatty(self):
-        return False
+        return self.tty
 
     def write(self, b):
         self.write_calls += 1
@@ -343,7 +357,8 @@ def run_process(main, argv, out_raw, err_raw, out_buffer=8192, err_line_buffered
     res = ProcessResult()
     # CPython: stdout encodes with the locale's encoding and 'strict' (surrogateescape under the C
     # locale); stderr always uses 'backslashreplace'
-    new_out = make_stream(out_raw, buffer_size=out_buffer, encoding=out_encoding[0], errors=out_encoding[1])
+    new_out = make_stream(out_raw, buffer_size=out_buffer, encoding=out_encoding[0], errors=out_encoding[1],
+                          line_buffering=bool(getattr(out_raw, 'tty', False)) and out_buffer != 0)
     new_err = make_stream(err_raw, buffer_size=1, line_buffering=err_line_buffered)
     old = (sys.stdout, sys.stderr)
     sys.stdout, sys.stderr = new_out, new_err
